@@ -19,6 +19,9 @@ mod guard;
 #[global_allocator]
 static GLOBAL: guard::GuardAlloc = guard::GuardAlloc;
 
+#[path = "../../harness/lmcheck/src/userabc.rs"]
+mod userabc;
+
 use std::io::Write;
 use std::panic::{catch_unwind, AssertUnwindSafe};
 use std::sync::Once;
@@ -471,17 +474,36 @@ fuzz_target!(|data: &[u8]| {
     }
     let mut u = Unstructured::new(&data[1..]);
     let mut stats = Stats::default();
-    if data[0] % 3 == 2 {
+    // first byte: below 192 DNA (2 in 3) or protein; from 192 on an alphabet of 9, 12 or 16 symbols declared by the
+    // caller through the public traits (the generic code paths for sizes between the library's own 5 and 21)
+    let alphabet = if data[0] >= 192 {
+        match data[0] % 3 {
+            0 => {
+                run_ops::<userabc::Abc9>(&mut u, &mut stats, &no_dna);
+                "user-9"
+            }
+            1 => {
+                run_ops::<userabc::Abc12>(&mut u, &mut stats, &no_dna);
+                "user-12"
+            }
+            _ => {
+                run_ops::<userabc::Iupac>(&mut u, &mut stats, &no_dna);
+                "user-16"
+            }
+        }
+    } else if data[0] % 3 == 2 {
         run_ops::<Protein>(&mut u, &mut stats, &no_dna);
+        "protein"
     } else {
         run_ops::<Dna>(&mut u, &mut stats, &dna_specific);
-    }
+        "dna"
+    };
     if let Ok(path) = std::env::var("LM_FUZZ_STATS") {
         if let Ok(mut f) = std::fs::OpenOptions::new().create(true).append(true).open(path) {
             let _ = writeln!(
                 f,
                 "{{\"alphabet\":\"{}\",\"ops\":[{}],\"max_len\":{},\"reused\":{},\"simd_on_reused\":{},\"panics\":{},\"bytes\":{}}}",
-                if data[0] % 3 == 2 { "protein" } else { "dna" },
+                alphabet,
                 stats.ops.iter().map(|o| format!("\"{}\"", o)).collect::<Vec<_>>().join(","),
                 stats.max_len,
                 stats.reused,
